@@ -9,6 +9,7 @@ import (
 	middlewareapi "github.com/oauth2-proxy/oauth2-proxy/v7/pkg/apis/middleware"
 	"github.com/oauth2-proxy/oauth2-proxy/v7/pkg/apis/options"
 	"github.com/oauth2-proxy/oauth2-proxy/v7/pkg/middleware"
+	"github.com/oauth2-proxy/oauth2-proxy/v7/providers"
 )
 
 //assume: C01.gate: the handlers are entered with the request scope already populated by the session chain (whose loaders are checked by C01.load/C12.seq harnesses); route->handler dispatch by gorilla/mux is not executed
@@ -186,4 +187,79 @@ func vh_C07_proxy_wiring() {
 			verifAssert("C07.proxy.identity-from-session", len(got) == 1 && got[0] == s.User)
 		}
 	}
+}
+
+//assume: C11.signout: backend logout URL not configured (the outgoing http.Get is outside the model); redirect director answers "/"
+
+// sign-out: the session is cleared before the success redirect; a failed clear is an error page
+// verif: unwind=5 strlen=8 also=C13
+func vh_C11_signout() {
+	g := vNewGate()
+	g.prov.data = &providers.ProviderData{}
+	g.p.SignOut(g.rw, g.req)
+	verifAssert("C11.signout.clear-attempted", g.store.clearCalls >= 1)
+	loc := g.rw.Header()["Location"]
+	// (the backend-logout step may clear a second time when the session is no longer authorised;
+	// the sign-out's own clear is the first one)
+	if g.store.firstClear != nil {
+		verifReach("clear-failed")
+		verifAssert("C11.signout.failure-is-error-page", g.pages.errPages >= 1 && g.pages.errCode == 500 && g.rw.status == 500)
+		verifAssert("C13.signout.no-success-redirect-on-failure", len(loc) == 0)
+	} else {
+		verifReach("cleared")
+		verifAssert("C11.signout.success-redirect", g.rw.status == 302 && len(loc) == 1 && loc[0] == "/")
+		verifAssert("C11.signout.no-error-page", g.pages.errPages == 0)
+	}
+	verifAssert("C11.signout.never-upstream", g.upstream == 0)
+}
+
+type vBasicValidator struct {
+	calls      int
+	user, pass string
+	ok         bool
+}
+
+func (v *vBasicValidator) Validate(user, password string) bool {
+	v.calls++
+	v.user, v.pass = user, password
+	v.ok = ndBool("htpasswd-accepts")
+	return v.ok
+}
+
+// sign-in form: a session is saved only for credentials the htpasswd validator accepted, and
+// the success redirect is sent only if that session was persisted
+// verif: unwind=5 strlen=8 also=C01
+func vh_C13_signin() {
+	g := vNewGate()
+	bv := &vBasicValidator{}
+	if ndBool("htpasswd-configured") {
+		g.p.basicAuthValidator = bv
+	}
+	g.p.basicAuthGroups = []string{"htpasswd-group"}
+	user, pass := ndString("form-username"), ndString("form-password")
+	g.req.Form = url.Values{"username": {user}, "password": {pass}}
+	g.p.SignIn(g.rw, g.req)
+	loc := g.rw.Header()["Location"]
+	if g.store.saveCalls > 0 {
+		verifReach("session-saved")
+		verifAssert("C01.signin.session-only-for-verified-credentials", g.req.Method == "POST" && bv.calls == 1 && bv.ok && bv.user == user && bv.pass == pass && user != "")
+		verifAssert("C01.signin.session-is-that-user", g.store.saved != nil && g.store.saved.User == user && g.store.saved.Email == "" && len(g.store.saved.Groups) == 1)
+		if g.store.saveErr != nil {
+			verifReach("save-failed")
+			verifAssert("C13.signin.save-failure-is-error-page", g.pages.errPages == 1 && g.pages.errCode == 500 && len(loc) == 0)
+		} else {
+			verifAssert("C13.signin.success-redirect", g.rw.status == 302 && len(loc) == 1 && loc[0] == "/")
+		}
+	} else {
+		verifReach("no-session")
+		verifAssert("C01.signin.no-redirect-without-session", len(loc) == 0)
+		verifAssert("C01.signin.prompt-or-error", g.pages.signIn == 1 || g.pages.errPages == 1)
+		if bv.calls == 1 && !bv.ok {
+			verifAssert("C01.signin.bad-credentials-401", g.pages.signInCode == 401 || g.pages.errPages == 1)
+		}
+	}
+	if g.req.Method == "POST" && g.p.basicAuthValidator != nil && user != "" && bv.ok && g.store.saveErr == nil {
+		verifAssert("C01.signin.converse", g.rw.status == 302)
+	}
+	verifAssert("C01.signin.never-upstream", g.upstream == 0)
 }
